@@ -556,6 +556,7 @@ def run_driver(case, tape):
             else:
                 sch = dict(case['sched'])
                 sch['abort_at'] = max(1, int(case['abort_frac'] * r['events']))
+                sch['abort_at_loop_boundary'] = True      # a kill between two steps: the stop the property speaks of
                 r1 = _driver_world(M, P1, case['g1'], sch, base, [tEnd, big, '-c', cfile, '-f', B, '-s', s])
             if r1['status'] in ('ok', 'aborted') and case.get('nofolder'):
                 B = _new_run_folder(base, before_leg1) or B
@@ -563,7 +564,13 @@ def run_driver(case, tape):
                 info['leg1_status'] = r1['status']
                 info['times_after_leg1'] = _list_times(B) if seams._real['isdir'](B) else []
                 # second leg: restart in the same folder, possibly on another process grid
+                before = {t: (seams._real['getmtime'](p) if 'getmtime' in seams._real else os.path.getmtime(p),
+                              os.stat(p).st_ino) for t, p in _ckpt_files(B, 'grid').items()} \
+                    if seams._real['isdir'](B) else {}
                 _driver_world(M, P2, case['g2'], quiet, base, [tEnd, big, '-c', cfile, '-f', B, '-s', s])
+                after = {t: (seams._real['getmtime'](p) if 'getmtime' in seams._real else os.path.getmtime(p),
+                             os.stat(p).st_ino) for t, p in _ckpt_files(B, 'grid').items()}
+                info['rewritten'] = sorted(t for t in before if t in after and after[t] != before[t])
                 info['times_split'] = _list_times(B)
                 info['times_unsplit'] = _list_times(A)
                 info['final'] = {}
@@ -593,6 +600,12 @@ def run_driver(case, tape):
                 if not (e <= tol):
                     raise OracleFail('restart-diverged', dict(name=name, relerr=e, N=N, M=Mm, save=s,
                                                               stop=case['stop'], after_leg1=info['times_after_leg1']))
+            t_resume = max(info['times_after_leg1']) if info['times_after_leg1'] else 0
+            older = [t for t in info.get('rewritten', []) if t < t_resume]
+            if older:
+                # a run that resumed at the newest checkpoint never computes, hence never rewrites, an older one
+                raise OracleFail('restart-did-not-resume', dict(rewritten=older, newest=t_resume,
+                                                                after_leg1=info['times_after_leg1']))
             probes = {'kind_driver': 1, 'stop_' + case['stop']: 1, 'save_interval_%d' % s: 1}
             if case.get('nofolder'):
                 probes['driver_without_folder_argument'] = 1
